@@ -46,6 +46,17 @@ def sequences(tier):
         seqs.append(("arr", "[" + ", ".join(e[0] for e in el) + "]", [e[1] for e in el]))
     for n in ([2, 4] if tier == "quick" else [1, 2, 3, 6]):
         seqs.append(("arr", "[" + ", ".join(str(100 + k) for k in range(n)) + "]", ["(i %d)" % (100 + k) for k in range(n)]))
+    # array literals that the folder cannot turn into one constant (an element is a call / a read of a mut): indexing and
+    # slicing them by constants goes through the instruction-level folding of `[..][i]`, not through the run-time routine
+    for n in ([1, 3] if tier == "quick" else [1, 2, 3, 5]):
+        for pos in sorted({0, n - 1}):
+            el = [ARR_ELEMS[k % len(ARR_ELEMS)] for k in range(n)]
+            srcs = [e[0] for e in el]
+            srcs[pos] = "idf(%s)" % srcs[pos] if pos == 0 else "*cell"
+            vals = [e[1] for e in el]
+            if pos != 0:
+                vals[pos] = "(i 77)"
+            seqs.append(("arr", "[" + ", ".join(srcs) + "]", vals, "idf := (x: any) -> any { return x }; cell := mut 77; "))
     strs = ["", "abcd", "aé\U0001F600b́c"] if tier == "quick" else ["", "a", "abcdef", "aé\U0001F600b́c", "中文", "x\U0001F600"]
     for s in strs:
         seqs.append(("str", src_str(s), list(s)))
@@ -69,8 +80,11 @@ def run(res, tier, seed, broken_model):
     rnd = random.Random(seed)
     seqs = sequences(tier)
     hl, keys = [], []
-    for kind, text, elems in seqs:
+    for sq in seqs:
+        kind, text, elems = sq[:3]
+        pre = sq[3] if len(sq) > 3 else ""
         n = len(elems)
+        first = len(hl)
         idxs = list(range(-(n + 3), n + 4)) + [MIN, MIN + 1, -2**32, 2**32, MAX - 1, MAX]
         for i in idxs:
             et = "any" if kind == "arr" else "string"
@@ -104,6 +118,11 @@ def run(res, tier, seed, broken_model):
                       ("%s[:(2)]" % text, (None, 2, None)), ("%s[(1):(2)]" % text, (1, 2, None)),
                       ("%s[::]" % text, (None, None, None)), ("%s[::(2)]" % text, (None, None, 2))):
             hl.append("prog\t\t" + esc_field(p)); keys.append(("slice", kind, text, elems, tr, "literal", p))
+        if pre:
+            for j in range(first, len(hl)):
+                mode, scope, body = hl[j].split("\t")
+                hl[j] = "\t".join([mode, scope, esc_field(pre) + body])
+                keys[j] = keys[j][:6] + (pre + keys[j][6],)
     impl = harness_run(hl)
     ml = []
     for k in keys:
